@@ -2,7 +2,7 @@
 import os, subprocess, concurrent.futures
 
 VERIF = os.path.dirname(os.path.dirname(os.path.abspath(__file__)))
-BUILD = os.path.join(VERIF, "build")
+BUILD = os.environ.get("VERIF_BUILD") or os.path.join(VERIF, "build")
 
 TRUSTED_BASE = [
     "Coq 8.16.1 kernel incl. its bytecode VM (vm_compute / vm_cast_no_check); native_compute not used",
